@@ -9,3 +9,4 @@
 (declare-fun parsefloat_ok (Str) Bool)
 (assert (forall ((q Int) (e Int)) (! (and (>= (slen q e) 0) (< (slen q e) 4611686018427387904)) :pattern ((slen q e)))))  ; a stream is finite (fewer than 2^62 nodes)
 (declare-fun evalv (Int Int) Iface)
+(declare-fun absb (Int) Bool)   ; "exhaustion of this query object is absorbing by construction" (defined per query type in the contract file)
